@@ -55,9 +55,9 @@ def parse_playback(text):
     return vals
 
 
-def run_harness(out, name, timeout=900):
+def run_harness(out, name, timeout=900, flags=()):
     env = dict(os.environ, CARGO_NET_OFFLINE="true", CARGO_TARGET_DIR=os.path.join(out, "target"))
-    cmd = ["cargo", "kani", "--harness", "harnesses::" + name, "--exact", "-Z", "concrete-playback", "--concrete-playback=print"]
+    cmd = ["cargo", "kani", "--harness", "harnesses::" + name, "--exact", "-Z", "concrete-playback", "--concrete-playback=print"] + list(flags)
     t0 = time.time()
     try:
         r = subprocess.run(cmd, cwd=out, env=env, capture_output=True, text=True, timeout=timeout)
@@ -141,9 +141,10 @@ def run_all(cname, tier="quick", only=None):
     # compile once (first harness), then the rest in parallel on the warm target dir
     res = {}
     first = names[0]
-    res[first] = run_harness(out, first)
+    flags = spec.get("kani_flags", [])
+    res[first] = run_harness(out, first, 900, flags)
     with cf.ThreadPoolExecutor(max_workers=8) as pool:
-        futs = {pool.submit(run_harness, out, n): n for n in names[1:]}
+        futs = {pool.submit(run_harness, out, n, 900, flags): n for n in names[1:]}
         for f in cf.as_completed(futs):
             res[futs[f]] = f.result()
     return spec, out, ex, res
